@@ -62,7 +62,7 @@ CHECKS.update({
    text="Each project is built from scratch under 6-12 controlled schedules (fifo/lifo/random release of every scheduling point, delay-rank 'slow step' schedules, jobs 1-4, resource limits) and resumed with nothing changed; TLC compares the full graph rendering (detached nodes, hash presence) and outputs of successful builds and the success/failed/pending class of all builds.",
    note=REL_NOTE + " Conflict error texts are compared by the graph-layer check, not here."),
  "C14": dict(engine="watch", category="model_checking", design_ref="§8 C14",
-   technique="TLA+ relational check (TLC, RelCheck.tla watch_eq_restart): real Watcher on real inotify vs restart on a copy of the same pre-state; operational TLA+ model of the file/step state machine (FileStep.tla) model checked (order independence of a batch of external updates) and replayed into the real Workflow",
+   technique="TLA+ relational check (TLC, RelCheck.tla watch_eq_restart): real Watcher on real inotify vs restart on a copy of the same pre-state; operational TLA+ model of the file/step state machine (FileStep.tla) model checked (order independence of a batch of external updates) and replayed into the real Workflow; WatchSets.tla (operational model of Watcher.record_change) model checked and replayed into the real Watcher",
    text="The real director runs in watch mode on real inotify; each watch phase applies a random event sequence (create/modify/delete/restore/recreate of sources, glob matches, tree files, outputs; directory removal and move; plan edits); the rebuilt state is compared by TLC with a restarted director on a snapshot of the same pre-state with the same events applied.",
    note=REL_NOTE),
  "C06": dict(engine="buildlayer", category="model_checking", design_ref="§8 C06",
@@ -155,6 +155,7 @@ def main():
             {"name": "plans", "path": "checks/plans.py", "serves_properties": ["C01"], "kind_free_text": "Plans.tla model check (finds F17) + replay of plan/sub-plan ownership transfer into the real Workflow (Layer G); library called by the C01 check"},
             {"name": "schedcache", "path": "checks/schedcache.py", "serves_properties": ["C10", "C11", "C12"], "kind_free_text": "SchedCache.tla model check (cache = definition whenever nothing is flagged; finds F1 and F2 in their pre-fix variants) + replay of graph-modification sequences into the real Workflow + Scheduler (Layer G); library called by the C10, C11 and C12 checks"},
             {"name": "defer", "path": "checks/defer.py", "serves_properties": ["C02", "C03", "C10"], "kind_free_text": "Defer.tla model check (NoLostWakeup, defer cap, Settles under fairness; finds the BUILT-only re-check variant) + replay of amend / declare / confirm / complete interleavings into the real Workflow (Layer G); library called by the C02, C03 and C10 checks"},
+            {"name": "watchsets", "path": "checks/watchsets.py", "serves_properties": ["C14"], "kind_free_text": "WatchSets.tla model check (Complete, DeletedAbsent, UpdatedPresent; finds the cancelling-pair variant) + replay of event sequences into the real Watcher.record_change (Layer G); library called by the C14 check"},
             {"name": "recycle", "path": "checks/recycle.py", "serves_properties": ["C01"], "kind_free_text": "Recycle.tla model check + replay of plan re-execution sequences into the real Workflow (Layer G); library called by the C01 check"},
         ],
         "checks": checks,
